@@ -153,10 +153,20 @@ Call ==
   /\ Step("Call") /\ s.phase \in {"user", "idle"}
   /\ Req("C02", Ev.res = Expected(Ev.f, Ev.match))
   /\ Req("C06", Ev.res = Expected(Ev.f, Ev.match))
+  /\ Req("C07", Ev.res = Expected(Ev.f, Ev.match))
   /\ LET c == Top(Ev.f) IN
        s' = IF s.phase = "user" /\ c.kind = "jump" /\ c.n >= 0 /\ Ev.res \in {c.fake, "panic-over"}
             THEN [s EXCEPT !.cnt = Put(@, c.site, @[c.site] + 1)]
             ELSE s
+
+\* a call whose panic is not caught by the caller: the scope unwinds
+CallUnwind ==
+  /\ Step("CallUnwind") /\ s.phase = "user"
+  /\ LET c == Top(Ev.f)  e == Expected(Ev.f, Ev.match) IN
+       /\ Req("C06", e \in {"panic-args", "panic-over"})
+       /\ Req("C05", e \in {"panic-args", "panic-over"})
+       /\ s' = [s EXCEPT !.unwinding = TRUE,
+                         !.cnt = IF c.kind = "jump" /\ c.n >= 0 /\ e = "panic-over" THEN Put(@, c.site, @[c.site] + 1) ELSE @]
 
 UserPanic ==
   /\ Step("UserPanic") /\ s.phase = "user"
@@ -171,6 +181,11 @@ DropBegin ==
 BadVerifiers == {i \in 1..Len(s.ver) : s.cnt[s.ver[i].site] # s.ver[i].n}
 FirstBad == CHOOSE i \in BadVerifiers : \A j \in BadVerifiers : i <= j
 
+ExitVerdictOk ==
+  IF BadVerifiers = {} THEN Ev.outcome = "ok"
+  ELSE /\ Ev.outcome = "panic" /\ Ev.cls = "count"
+       /\ Ev.exp = s.ver[FirstBad].n /\ Ev.act = s.cnt[s.ver[FirstBad].site]
+
 DropEnd ==
   /\ Step("DropEnd") /\ s.phase = "drop"
   /\ Req("C02", \A f \in DOMAIN s.mem : s.mem[f] = s.orig[f])
@@ -179,10 +194,8 @@ DropEnd ==
   /\ Req("C04", Ev.lock # 1)
   /\ Req("C05", Ev.lock # 1 /\ Ev.panics <= 1)
   /\ Req("C05", s.unwinding => Ev.outcome = "ok")        \* nothing is raised while unwinding
-  /\ Req("C06", ~s.unwinding =>
-          IF BadVerifiers = {} THEN Ev.outcome = "ok"
-          ELSE /\ Ev.outcome = "panic" /\ Ev.cls = "count"
-               /\ Ev.exp = s.ver[FirstBad].n /\ Ev.act = s.cnt[s.ver[FirstBad].site])
+  /\ Req("C06", ~s.unwinding => ExitVerdictOk)
+  /\ Req("C07", ~s.unwinding => ExitVerdictOk)
   /\ s' = [s EXCEPT !.phase = "idle", !.kind = "none", !.lives = @ + 1, !.live = {}, !.dirty = {},
                     !.eff = [f \in DOMAIN s.eff |-> <<>>]]
 
@@ -209,7 +222,7 @@ Note == Step("Note") /\ s' = s
 TraceNext ==
   \/ Target \/ Acquire \/ InstallBegin \/ Mmap \/ Munmap \/ WriteTramp \/ WriteEntry \/ WriteOther
   \/ Flush \/ Mprotect \/ InstallEndOk \/ InstallEndPanic \/ Call \/ UserPanic \/ DropBegin \/ DropEnd
-  \/ Diff \/ Fresh \/ ChildExit \/ Note
+  \/ Diff \/ Fresh \/ ChildExit \/ Note \/ CallUnwind
 
 TraceSpec == TraceInit /\ [][TraceNext]_tvars
 
